@@ -75,9 +75,16 @@ R1CasesN(fs, ancs, nm) ==
       id1 \in (IF K >= 2 THEN R1Ids1 ELSE {IdOf(RelRef(<<"e.json">>)), IdOf(H2(<<"e.json">>))}),
       id2 \in (IF K >= 3 THEN R1Ids2 ELSE {IdOf(RelRef(<<"f.json">>))}),
       loc \in Locs, ru \in R1RefURIs, f \in fs, anc \in ancs}
+\* NO base URI and no options at all (Resolve(nil)): every embedded resource carries an absolute $id, so the document
+\* resolves; a reference that leaves the document then finds no Loader and must make Resolve fail (never a panic)
+R1NoBase ==
+  {[u |-> [docs |-> <<[uri |-> EmptyURI, s |-> R1DocN(<<>>, IdOf(H2(<<"e.json">>)), IdOf(H2(<<"x", "f.json">>)), loc, Ref(ru, f), 0..3, "a")]>>],
+    insts |-> [i \in 1..5 |-> Route(loc, IF i = 5 THEN Str("a") ELSE Num(Mark[i]))]
+              \o [i \in 1..4 |-> Obj([r0 |-> Num(Mark[i])])] \o [i \in 1..4 |-> Obj([e2 |-> Obj([r0 |-> Num(Mark[i])])])]] :
+      loc \in Locs, ru \in R1RefURIs, f \in {FragNone, FragName("a")}}
 R1CasesA(fs, ancs) == R1CasesN(fs, ancs, "a")
 R1Cases(z) == R1CasesA(Frags, {0..3}) \cup R1CasesA({FragName("a")}, {{0}, {1, 2, 3}})
-              \cup R1CasesN({FragName("x-y.z_9")}, {0..3}, "x-y.z_9")
+              \cup R1CasesN({FragName("x-y.z_9")}, {0..3}, "x-y.z_9") \cup R1NoBase
 
 \* ------------------------------------------------------------ R2: Loader documents
 \* chains, diamonds, cycles, canonical-vs-retrieval aliases, faults
